@@ -1,4 +1,5 @@
 import Percival.Proofs.Entropy
+import Percival.Proofs.OsEntropy
 /-!
 # C11 — the random generator is HMAC_DRBG(SHA-256) over OS entropy, reseeded on schedule
 
@@ -191,5 +192,29 @@ example :
     (Model.Entropy.run (Cfg.doc 2 4) St.init [none, some (List.replicate 48 3), none, some (List.replicate 32 4)] [1, 5, 0, 2, 2]).map
       (fun r => match r with | .ok out => some out.length | _ => none)
     = [none, some 5, some 0, none, some 2] := by decide +kernel
+
+/-! ## the operating-system entropy reader (`util/entropy.c`) -/
+
+/-- `entropy_read` hands `crypto_entropy.c` exactly the next `n` bytes the operating system
+    produced, in order — for every fragmentation of the reads (short reads of any sizes); the
+    assumption "entropy_read fills exactly the requested bytes or fails" used above is thereby a
+    theorem about the model of `util/entropy.c`, which is tied to the code by its own harness. -/
+theorem os_entropy_exact (n : Nat) (stream : List UInt8) (script : List Model.OsEntropy.ReadAns)
+    (h : (Model.OsEntropy.entropyRead true n stream script).ok = true) :
+    (Model.OsEntropy.entropyRead true n stream script).got = stream.take n ∧ n ≤ stream.length := by
+  unfold Model.OsEntropy.entropyRead at h ⊢
+  simp only [if_true] at h ⊢
+  have := Percival.Proofs.OsEntropy.fill_ok (n + 1) n stream script { ok := false, got := [], calls := [] } h
+  simpa using this
+
+/-- a failing `open`, an end-of-file or a read error makes the call fail (and then
+    `instantiate_failure` / `reseed_failure` apply) -/
+theorem os_entropy_failure (n : Nat) (stream : List UInt8) (as : List Model.OsEntropy.ReadAns) :
+    (Model.OsEntropy.entropyRead false n stream as).ok = false ∧
+    (Model.OsEntropy.entropyRead true (n + 1) stream (.eof :: as)).ok = false ∧
+    (Model.OsEntropy.entropyRead true (n + 1) stream (.err :: as)).ok = false := by
+  refine ⟨rfl, ?_, ?_⟩ <;> simp [Model.OsEntropy.entropyRead, Model.OsEntropy.fill]
+
+example : (Model.OsEntropy.entropyRead true 5 [1, 2, 3, 4, 5, 6, 7] [.chunk 1, .chunk 0, .chunk 9]).got = [1, 2, 3, 4, 5] := by decide
 
 end Percival.C11
